@@ -47,6 +47,10 @@ def var_type(b, t):
     if t == 'bytes': return b.ty('DynamicBytes')
     if t == 'address': return b.ty('Address')
     if t == 'bytes4': return b.ty('Bytes', 4)
+    if t == 'bytes32': return b.ty('Bytes', 32)
+    if t == 'int256': return b.ty('Int', 256)
+    if t == 'uint8': return b.ty('Uint', 8)
+    if t == 'address_payable': return b.ty('AddressPayable')
     if t == 'mapping': return b.mapping(b.ty('Address'), b.ty('Uint', 256))
     if t == 'user': return b.var('Token')
     if t == 'array': return b.index(b.ty('Uint', 256))
